@@ -135,7 +135,50 @@ fn converge(sim: &mut RSim, disk: Disk, r: hypercore::Hypercore, rm: ReplicaMode
     let old_r = std::mem::replace(&mut sim.r, Some(r));
     let old_rm = std::mem::replace(&mut sim.rm, rm);
     let mut scratch = Local::default();
-    let res = sim.sync_all(&mut scratch).and_then(|_| sim.replica_reopen());
+    // second step: on the state an accepted altered proof left behind, value-forged block proofs
+    // (honest proof for the replica's present state with one flipped byte in the value) must still
+    // be refused - an accepted alteration must not have planted nodes that a later forgery can lean on
+    let mut second: Check = Ok(());
+    if !what.starts_with("honest") && !what.starts_with("second") {
+        let wl = sim.wlen();
+        let mut cands: Vec<u64> = (0..wl).filter(|i| sim.w.model.has(*i)).collect();
+        if cands.len() > 4 {
+            cands = vec![cands[0], cands[cands.len() / 2], cands[cands.len() - 2], cands[cands.len() - 1]];
+        }
+        for i in cands {
+            let req = Req { target: Target::BlockAt(i), upgrade: Upg::Full, seek: Seek::None };
+            let Ok(Ok(c)) = sim.resolve(&req) else { continue };
+            let Ok(Ok(Some(p))) = sim.writer_proof(&c) else { continue };
+            let mut q = PProof::from_proof(&p);
+            if let Some(b) = &mut q.block {
+                if b.value.is_empty() {
+                    b.value.push(1);
+                } else {
+                    b.value[0] ^= 0x80;
+                }
+            }
+            let files = sim.rdisk.snapshot();
+            let d2 = Disk::from_files(files);
+            let Ok(Ok(mut r2)) = hc::open(&d2) else { continue };
+            let res = catch(|| block_on(r2.verify_and_apply_proof(&q.to_proof())));
+            local.class("second_step_forgeries");
+            match res {
+                Ok(Ok(true)) => {
+                    let got = catch(|| block_on(r2.get(i)));
+                    if !matches!(&got, Ok(Ok(Some(v))) if *v == sim.wblocks[i as usize]) {
+                        second = Err(fail_at(sim.step, "accepted-forged-data:second-step", format!("after {what} was accepted, a value-forged proof for block {i} was accepted too and the replica now reads {:?}", got.ok().and_then(|g| g.ok()).map(|g| g.map(|v| hc::brief_bytes(&v))))));
+                        break;
+                    }
+                }
+                Ok(_) => {}
+                Err(p) => {
+                    second = Err(panic_failure(&format!("second-step forgery for block {i} after {what}"), &p));
+                    break;
+                }
+            }
+        }
+    }
+    let res = second.and_then(|_| sim.sync_all(&mut scratch)).and_then(|_| sim.replica_reopen());
     sim.rdisk = old_disk;
     sim.r = old_r;
     sim.rm = old_rm;
